@@ -291,7 +291,7 @@ func (c *Ctx) And(xs ...*Term) *Term {
 		if x.IsTrue() || seen[x.ID] {
 			return true
 		}
-		if x.Op == OpAnd {
+		if x.Op == OpAnd && len(x.Args) <= 6 {
 			for _, y := range x.Args {
 				if !add(y) {
 					return false
@@ -334,7 +334,7 @@ func (c *Ctx) Or(xs ...*Term) *Term {
 		if x.IsFalse() || seen[x.ID] {
 			return true
 		}
-		if x.Op == OpOr {
+		if x.Op == OpOr && len(x.Args) <= 6 {
 			for _, y := range x.Args {
 				if !add(y) {
 					return false
